@@ -1492,8 +1492,10 @@ class Exec:
                 _, b = self.iter_source(node.iter, node.target, kterm, frozen.fork())
                 b(s)
 
-        # 1. establish
+        # 1. establish (entry clauses first: they refer to the enclosing loop's head through at_head)
         at_head(pre, z3.IntVal(0))
+        if spec.entry_:
+            self.run_finally(spec, pre, None, node, clauses=spec.entry_, label='loop-entry')
         for g, txt in self.invariants(spec, pre, node, 'establish'):
             self.oblige(pre, 'inv-init', node, g, 'loop %d invariant holds on entry: %s' % (ordn, txt))
         # 2. arbitrary iteration
@@ -1517,7 +1519,13 @@ class Exec:
         outs = []
         head_snapshot = body_st.fork()
         head_snapshot.heap = dict(body_st.heap)
-        for tag, s2, payload in self.run_block(node.body, body_st):
+        outer_head = getattr(self, 'head', None)
+        self.head = head_snapshot
+        try:
+            body_results = self.run_block(node.body, body_st)
+        finally:
+            self.head = outer_head
+        for tag, s2, payload in body_results:
             if tag in ('next', 'continue'):
                 self.run_finally(spec, s2, head_snapshot, node)
                 at_head(s2, k0 + 1)
@@ -1537,22 +1545,24 @@ class Exec:
         outs.append(('next', after, None))
         return outs
 
-    def run_finally(self, spec, st, head, node):
-        self.head = head
+    def run_finally(self, spec, st, head, node, clauses=None, label='end-of-body'):
+        saved_head = getattr(self, 'head', None)
+        if head is not None:
+            self.head = head
         self.spec_mode = True
         try:
-            for what, e, txt in spec.finally_:
+            for what, e, txt in (spec.finally_ if clauses is None else clauses):
                 if what == 'check':
                     g = self.zbool(self.truth(self.ev(e, st)))
                     self.spec_mode = False
-                    self.oblige(st, 'ghost-check', node, g, 'end-of-body check: ' + txt)
+                    self.oblige(st, 'ghost-check', node, g, label + ' check: ' + txt)
                     self.spec_mode = True
                     self.assume(st, g)
                 else:
                     self.assume_hint(e, txt, st)
         finally:
             self.spec_mode = False
-            self.head = None
+            self.head = saved_head
 
     def call_at_head(self, node, st):
         if getattr(self, 'head', None) is None:
